@@ -405,6 +405,7 @@ const preamble = `(declare-datatypes ((Ptr 0)) (((zz_nilptr) (zz_new (zz_new_id 
 (define-fun-rec zz_isnew ((p Ptr)) Bool (ite ((_ is zz_new) p) true (ite ((_ is zz_fld) p) (zz_isnew (zz_fld_base p)) (ite ((_ is zz_elem) p) (zz_isnew (zz_elem_base p)) false))))
 (assert (= (zz_dyn zz_ifnil) 0))
 (declare-fun zz_cfresh (Ptr) Bool)
+(assert (not (zz_cfresh zz_nilptr)))
 (define-fun-rec zz_under ((a Ptr) (p Ptr)) Bool (or (= a p) (ite ((_ is zz_fld) a) (zz_under (zz_fld_base a) p) (ite ((_ is zz_elem) a) (zz_under (zz_elem_base a) p) false))))
 (define-fun zz_tdiv ((a Int) (b Int)) Int (ite (>= a 0) (div a b) (- (div (- a) b))))
 (define-fun zz_tmod ((a Int) (b Int)) Int (- a (* b (zz_tdiv a b))))
